@@ -66,6 +66,7 @@ def msgNonEmpty (h : Handler) (e : Exc) (listenerText : Bool) : Bool :=
    | .saxParseFormat => true                            -- "SAXParseException: msg (location)"
    | .domFormat => true                                 -- message catalogue text + code
    | .getMessage => !e.msgEmpty
+   | .fixedText => true                                 -- a non-empty literal (checked by the translator) or what() with a literal fallback
    | .noMessage => false)
 
 def outcome (chain : List Handler) (e : Exc) (listenerText : Bool) : Outcome :=
